@@ -295,4 +295,48 @@ class C19d(Obligation):
                   'names = dotted components in order')
 
 
-OBLIGATIONS = [C19a, C19b, C19d, C19f]
+class C19e(Obligation):
+    id = 'C19.e'
+    title = 'search results: a hit is dropped only if the very same token (or module file) was already reported'
+    pattern = 'P3 (the stream of raw hits is symbolic: which token, which file, which position)'
+    assumptions = (
+        'a stream of k<=3 raw hits; each refers to one of two name tokens (in files with the SAME base name and possibly '
+        'the SAME line/column) or is a module hit for one of two paths; identity of tokens and paths is what matters',
+    )
+
+    def configs(self, tier):
+        return [dict(k=k) for k in (1, 2, 3)]
+
+    def scenario(self, ctx, cfg):
+        k = cfg['k']
+        line = ctx.int('line', 1)
+        col = ctx.int('column', 0)
+        # two distinct tokens at the same position in two files called util.py, and two module paths
+        tokens = [Obj(tag='token-in-pkg_a/util.py', start_pos=(line, col)), Obj(tag='token-in-pkg_b/util.py', start_pos=(line, col))]
+        paths = ['/proj/pkg_a/util.py', '/proj/pkg_b/util.py']
+        hits = []
+        for i in range(k):
+            kind = ctx.choice('hit%d_kind' % i, 4)       # 0,1: token 0/1   2,3: module path 0/1
+            if kind < 2:
+                hits.append(Obj(_name=Obj(tree_name=tokens[kind]), type='function', module_path=paths[kind],
+                                module_name='util', tag='hit%d' % i, key=('tok', kind)))
+            else:
+                hits.append(Obj(_name=Obj(tree_name=None), type='module', module_path=paths[kind - 2],
+                                module_name='util', tag='hit%d' % i, key=('mod', kind - 2)))
+        wrapped = jproject._try_to_skip_duplicates(lambda: iter(hits))
+        ctx.force(wrapped)
+        out = ctx.call(lambda: list(wrapped()))
+        ctx.check(out.exc is None, 'never raises')
+        if out.exc is not None:
+            return
+        seen = []
+        expected = []
+        for h in hits:
+            if h.key not in seen:
+                expected.append(h)
+                seen.append(h.key)
+        ctx.check(len(out.value) == len(expected) and all(a is b for a, b in zip(out.value, expected)),
+                  'exactly the first report of every distinct token / module file is kept, in order')
+
+
+OBLIGATIONS = [C19a, C19b, C19d, C19e, C19f]
